@@ -325,6 +325,8 @@ class Tree:
     """one test item: tree, context, optional bindings (substituted variant)"""
 
     def __init__(self, tree, ctx="let", binds=(), origin=""):
+        if not in_discipline(tree):
+            raise ValueError("unary minus applied to a literal")
         self.tree = tree
         self.ctx = ctx
         self.binds = list(binds)
@@ -479,7 +481,7 @@ def random_tree(r, ty, depth):
     x = r.random()
     if x < 0.14 and ty != "string":
         inner = random_tree(r, ty, depth - 1)
-        if inner[0] in ("int",):
+        if inner[0] == "int":
             inner = make_leaf(r, ty, "var")
         return ("un", "neg" if ty == "int" else "not", inner)
     ops = [(op, l, rr) for op in ALL_OPS for l, rr, res in sigs(op) if res == ty]
@@ -511,6 +513,32 @@ def depth_of(e):
     if k == "call":
         return 1 + max([depth_of(a) for a in e[2]] or [0])
     return 0
+
+
+def weight(e):
+    """size measure of the shrinker: literals are lighter than variables, those lighter than projections and calls"""
+    k = e[0]
+    if k == "bin":
+        return 2 + weight(e[2]) + weight(e[3])
+    if k == "un":
+        return 2 + weight(e[2])
+    if k == "call":
+        return 4 + sum(weight(a) for a in e[2])
+    return {"var": 2, "field": 3, "tidx": 3}.get(k, 1)
+
+
+def in_discipline(e):
+    """unary minus is never applied to a literal: `-5` is ONE token, in the prefix spelling `(- 5)` it is an operator"""
+    k = e[0]
+    if k == "un":
+        if e[1] == "neg" and e[2][0] == "int":
+            return False
+        return in_discipline(e[2])
+    if k == "bin":
+        return in_discipline(e[2]) and in_discipline(e[3])
+    if k == "call":
+        return all(in_discipline(a) for a in e[2])
+    return True
 
 
 def defined(e):
@@ -594,15 +622,18 @@ def enumerate_tuples(r, n_ops, shapes, full_kinds, sample=None):
     for ops, sname, ty in plan:
         lts = leaves_of(ty, [])
         jobs = []
-        if full_kinds:
+        if full_kinds == "cartesian":
+            for combo in itertools.product(*[[k for k in KINDS if not (k == "un" and t == "string")] for t in lts]):
+                jobs.append((None, None, list(combo)))
+        elif full_kinds:
             for pos in range(len(lts)):
                 for kind in KINDS:
                     if kind == "un" and lts[pos] == "string":
                         continue
-                    jobs.append((pos, kind))
+                    jobs.append((pos, kind, None))
         else:
-            jobs.append((None, None))
-        for pos, kind in jobs:
+            jobs.append((None, None, None))
+        for pos, kind, fixed in jobs:
             tree = None
             for attempt in range(12):
                 kinds = [r.choice(KINDS if t != "string" else KINDS[:-1]) for t in lts]
@@ -611,6 +642,8 @@ def enumerate_tuples(r, n_ops, shapes, full_kinds, sample=None):
                     kinds = [r.choice(["lit", "var"]) for t in lts]
                 if pos is not None:
                     kinds[pos] = kind
+                if fixed is not None:
+                    kinds = fixed
                 cand = instantiate(r, ty, kinds)
                 if cand is not None and defined(cand):
                     tree = cand
@@ -825,9 +858,9 @@ def shrink(tree, fails, budget=50):
                 if cnd == sub:
                     continue
                 new = replace(best, path, cnd)
-                if new[0] not in ("bin", "un") or not defined(new):
+                if new[0] not in ("bin", "un") or not defined(new) or not in_discipline(new):
                     continue
-                if size(new) >= size(best):
+                if weight(new) >= weight(best):
                     continue
                 calls[0] += 1
                 if fails(new):
@@ -901,7 +934,7 @@ def run(ctx):
         items = []          # (group, Tree, meta)
         enum_stats = {}
         # ---- pairs: always exhaustive ------------------------------------------------------------------
-        pairs, st = enumerate_tuples(ctx.rng("pairs"), 2, ["left-comb", "right-nested"], full_kinds=True)
+        pairs, st = enumerate_tuples(ctx.rng("pairs"), 2, ["left-comb", "right-nested"], full_kinds=True if quick else "cartesian")
         enum_stats["pairs"] = st
         # ---- triples -----------------------------------------------------------------------------------
         if quick:
@@ -910,7 +943,7 @@ def run(ctx):
         else:
             triples, st3 = enumerate_tuples(ctx.rng("triples"), 3, ["left-comb", "right-nested"], full_kinds=True)
             enum_stats["triples"] = st3
-            more, st3b = enumerate_tuples(ctx.rng("triples-mixed"), 3, ["balanced", "left-of-right", "right-of-left"], full_kinds=False)
+            more, st3b = enumerate_tuples(ctx.rng("triples-mixed"), 3, ["balanced", "left-of-right", "right-of-left"], full_kinds=True)
             enum_stats["triples_mixed_shapes"] = st3b
             triples += more
         ci = 0
@@ -1131,7 +1164,8 @@ def run(ctx):
                       "bound_variants_of_known_finding_trees": sum(1 for t in normal if t.binds)},
             "pairs": {"operator_pairs": len(ALL_OPS) ** 2, "shapes": ["left-comb", "right-nested"], "typed_shapes": enum_stats["pairs"]["typed_shapes"],
                       "type_correct_pair_x_shape": enum_stats["pairs"]["type_correct"], "pair_x_shape_without_typing": enum_stats["pairs"]["without_any_typing"],
-                      "operand_kinds": "one-factor: every leaf position x every operand kind, the other leaves random", "exhaustive": True},
+                      "operand_kinds": "one-factor: every leaf position x every operand kind, the other leaves random" if quick else
+                                       "cartesian: every combination of operand kinds over the three leaves", "exhaustive": True},
             "triples": dict(enum_stats.get("triples", enum_stats.get("triples_sampled")), operator_triples=len(ALL_OPS) ** 3,
                             exhaustive=not quick, **({} if quick else {"mixed_shapes": enum_stats["triples_mixed_shapes"]})),
             "enumeration": enum_stats,
